@@ -126,7 +126,7 @@ def run_real(ctx, cov, add, canon_msgs, catalogue, rand_msg, mutate):
     core = cat[:5] + cat[7:10]
     muts = ["none", "none", "none", "flip", "fliptag", "swap", "replay", "laterctr", "trunc", "malformed", "none", "fliplen"]
     cases = []
-    for i in range(len(muts) * (1 if quick else 6)):
+    for i in range(len(muts) * (1 if quick else 8)):
         mut = muts[i % len(muts)]
         if i % 2:
             ms = [rand_msg(r, maxbody=r.choice([10, 40, 120])) for _ in range(r.choice([1, 2, 3]))]
